@@ -190,6 +190,45 @@ func visible(dirs []string, src lab, dep vt) bool {
 	return experimental(dirs, src)
 }
 
+// visibleWith: the rule of `visible` (repository-blind, as the code is) with the two prefix tests as parameters.
+func visibleWith(dirs []string, src lab, dep vt, pat, exp func(p, q string) bool) bool {
+	isExp := func(l lab) bool {
+		if l.S != "" {
+			return false
+		}
+		for _, d := range dirs {
+			if exp(d, l.P) {
+				return true
+			}
+		}
+		return false
+	}
+	if src.P == dep.L.P {
+		return true
+	}
+	if isExp(dep.L) && !isExp(src) {
+		return false
+	}
+	par := refParent(src)
+	for _, v := range dep.Vis {
+		switch v.N {
+		case "...":
+			if pat(v.P, par.P) {
+				return true
+			}
+		case "all":
+			if v.P == par.P {
+				return true
+			}
+		default:
+			if v.P == par.P && v.N == par.N {
+				return true
+			}
+		}
+	}
+	return isExp(src)
+}
+
 func testOnlyOK(dirs []string, t, dep vt) bool {
 	return !dep.TestOnly || t.IsTest || t.TestOnly || experimental(dirs, t.L)
 }
@@ -204,15 +243,13 @@ func visClass(dirs []string, src lab, dep vt) string {
 			return "visibility-pattern-ignores-subrepo"
 		}
 	}
-	for _, v := range dep.Vis {
-		if v.N == "..." && v.P != "" && strings.HasPrefix(src.P, v.P) && !under(v.P, src.P) {
-			return "visibility-pattern-string-prefix"
-		}
+	// raw string-prefix readings of the two pattern tests: do they explain the acceptance?
+	raw := func(p, q string) bool { return strings.HasPrefix(q, p) }
+	if visibleWith(dirs, src, dep, raw, under) && !visibleWith(dirs, src, dep, under, under) {
+		return "visibility-pattern-string-prefix"
 	}
-	for _, d := range dirs {
-		if d != "" && strings.HasPrefix(src.P, d) && !under(d, src.P) {
-			return "experimental-string-prefix"
-		}
+	if visibleWith(dirs, src, dep, under, raw) && !visibleWith(dirs, src, dep, under, under) {
+		return "experimental-string-prefix"
 	}
 	return "visibility-deviates"
 }
